@@ -100,9 +100,10 @@ type GenesisOpts struct {
 	MinStake      int64
 	ValidatorStake int64
 	MaxValidators int64
-	Features      map[string]int64 // feature key -> activation height (codec.UpgradeFeatureMap); nil = AllFeatures(1)
+	Features      map[string]int64 // feature key -> activation height (codec.UpgradeFeatureMap); nil = AllFeatures(2)
 	UpgradeHeight int64            // stored gov upgrade height (0 => 2)
-	OldUpgradeHeight int64         // stored old upgrade height (0 => 1): codec upgrade at 1, validator split from 2
+	OldUpgradeHeight int64         // stored old upgrade height (0 => 1): amino genesis at height 0, codec upgrade +
+	                               // ConvertState at block 1, every feature and the validator split from block 2
 	Mutate        func(g *Genesis)
 }
 
@@ -182,7 +183,7 @@ func BuildGenesis(o GenesisOpts) app.GenesisState {
 	g.Gov.Params.ACL = acl
 	g.Gov.Params.DAOOwner = o.Owner.Addr
 	if o.Features == nil {
-		o.Features = AllFeatures(1)
+		o.Features = AllFeatures(2)
 	}
 	if o.UpgradeHeight == 0 {
 		o.UpgradeHeight, o.OldUpgradeHeight = 2, 1
@@ -219,8 +220,19 @@ func AllFeatures(h int64) map[string]int64 {
 	return m
 }
 
-// ModernGlobals = ResetGlobals for the default GenesisOpts (all features at 1, codec upgrade at 1, split from 2).
-func ModernGlobals() { ResetGlobals(AllFeatures(1), 2, 1) }
+// ModernGlobals = ResetGlobals for the default GenesisOpts.  The schedule mirrors mainnet's path in
+// miniature: genesis (height 0) is written with the legacy amino codec, block 1 is the codec upgrade
+// height (ConvertState rewrites node/app records as protobuf), and every named feature plus the
+// validator split are active from block 2 on.  So: block 1 runs under pre-feature rules — send
+// transactions from height 2 (World.GenBlock does) — and genesis node records have no output address
+// (LegacyValidator has none; a non-custodial output is set by an edit-stake tx).
+// Two alternatives do NOT work: features at 1 (InitGenesis writes legacy node records at height 0
+// that block 1's ConvertState cannot decode once NCUST is active: genesis nodes vanish), and
+// features/codec at -1 (types.TransactionIndexer marshals with height 0 and needs amino there).
+func ModernGlobals() { ResetGlobals(AllFeatures(2), 2, 1) }
+
+// FirstModernHeight is the first block executed under the modern rule set with the default schedule.
+const FirstModernHeight = 2
 
 // ResetGlobals puts pocket-core's package-level state back to process-start values and installs
 // the feature schedule for a new node in the same process.
